@@ -251,6 +251,21 @@ def replay_chunk(args):
                             if overlap and "x" in sp:
                                 out["viol"].append(("C04", dict(sig, what="column NOT sorted across row groups is listed by "
                                                                 "sorted_partitioned_columns"), ci))
+                        if nrg >= 2:
+                            # a call sequence on one handle: a FILTERED sorted_partitioned_columns in between must not change
+                            # what the handle exposes afterwards
+                            snap = repr(S)
+                            zcut = int(z.iloc[case["rgs"][0]["len"] - 1]) if case["rgs"][0]["len"] else int(z.iloc[0])
+                            try:
+                                fp.api.sorted_partitioned_columns(pf, filters=[("z", ">", zcut)])
+                            except BaseException:  # noqa  (what a filtered call may answer is not the subject here)
+                                pass
+                            if repr(pf.statistics) != snap:
+                                out["viol"].append(("C04", dict(sig, what="ParquetFile.statistics changed after a filtered "
+                                                                "sorted_partitioned_columns on the same handle"), ci))
+                            elif sp is not None and fp.api.sorted_partitioned_columns(pf) != sp:
+                                out["viol"].append(("C04", dict(sig, what="sorted_partitioned_columns answers differently after a "
+                                                                "filtered call on the same handle"), ci))
                         for gi, g in enumerate(case["rgs"] if exposed else []):
                             chunk_cells = [c for c in cells[g["start"]:g["start"] + g["len"]] if c >= 0]
                             umin, umax = S["min"]["x"][gi], S["max"]["x"][gi]
